@@ -37,6 +37,10 @@ func (e *sx) String() string {
 			as = append(as, a.String())
 		}
 		return "phi(" + strings.Join(as, "|") + ")"
+	case "idx":
+		return e.args[0].String() + "[" + e.args[1].String() + "]"
+	case "fld":
+		return e.args[0].String() + "." + e.s
 	case "call":
 		var as []string
 		for _, a := range e.args {
@@ -90,6 +94,18 @@ func symOf(v ssa.Value, env provEnv) *sx {
 	case *ssa.UnOp:
 		if x.Op == token.MUL {
 			p := valueProv(x, env)
+			if ia, ok := p.root.(*ssa.IndexAddr); ok && p.root != ssa.Value(x) || (ok && x.X == ssa.Value(ia)) {
+				// an element of an array / slice variable (parent.children[i], and fields selected from it): base and index
+				// are expressed in the root frame like everything else
+				e2 := env
+				e2.chain = p.chain
+				base := addrOrValue(ia.X, e2)
+				n := &sx{op: "idx", args: []*sx{{op: "leaf", s: base.String(), v: ia.X}, symOf(ia.Index, e2)}, v: x}
+				if len(p.fields) > 0 {
+					n = &sx{op: "fld", s: strings.Join(p.fields, "."), args: []*sx{n}, v: x}
+				}
+				return n
+			}
 			if p.root != nil && p.root != ssa.Value(x) {
 				if len(p.fields) == 0 {
 					// the variable holds a computed value: continue into it
